@@ -148,7 +148,9 @@ class World:
 
                 value = _copy.deepcopy(_pyvalue(v["kind"], op["value"]))
                 modn = ir.modname(prog, v["mod"])
-                inplace = bool(op.get("inplace")) and v["kind"] in ("list", "dict")
+                # the memory store keeps the very objects the functions returned: mutating a module-level container in
+                # place would also rewrite stored results that alias it (user-code impurity, not a dds matter)
+                inplace = bool(op.get("inplace")) and v["kind"] in ("list", "dict") and info["store"]["kind"] != "memory"
                 info["proc"].call({"cmd": "mutate", "module": modn, "var": op["var"], "value": value, "inplace": inplace})
                 info["mutations"].append((modn, op["var"], value, inplace))
                 if inplace:
